@@ -24,11 +24,17 @@ import (
 // metrics and the same multiset of records no matter how a result set is split
 // across files or which mix of encodings the files use.
 
+// (Dup / Every below: see runC13Split)
 type c13Split struct {
 	Files   []c13SFile
 	Type    string // report type
 	Buckets string // -buckets value
 	To      string // encode --to
+	// Dup >= 0: the input at this index is named twice on the command line (its records then count twice:
+	// every named input is read, "union" is the union of what was named)
+	Dup int
+	// Every: the report runs with -every=1ms while the piped inputs pause (periodic reports in between; the last one counts)
+	Every bool `json:",omitempty"`
 }
 
 type c13SFile struct {
@@ -219,6 +225,11 @@ func runC13Split(c c13Split) error {
 		files = append(files, p)
 		union = append(union, f.Results...)
 	}
+	if c.Dup >= 0 && c.Dup < len(files) && !c.Files[c.Dup].Pipe {
+		files = append(files, files[c.Dup])
+		c.Files = append(c.Files, c.Files[c.Dup])
+		union = append(union, c.Files[c.Dup].Results...)
+	}
 	unionFile, err := writeResults(dir, "union.gob", "gob", union)
 	if err != nil {
 		return err
@@ -233,7 +244,11 @@ func runC13Split(c c13Split) error {
 				return nil, err
 			}
 			npipe++
-			pp, err := slowPipe(dir, fmt.Sprintf("pipe%d", npipe), data, []int{len(data) / 2}, 0)
+			pause := time.Duration(0)
+			if c.Every {
+				pause = 4 * time.Millisecond
+			}
+			pp, err := slowPipe(dir, fmt.Sprintf("pipe%d", npipe), data, []int{len(data) / 3, 2 * len(data) / 3}, pause)
 			if err != nil {
 				return nil, err
 			}
@@ -254,13 +269,27 @@ func runC13Split(c c13Split) error {
 	rep := func(in []string, name string) (string, error) {
 		out := filepath.Join(dir, name)
 		var rerr error
-		if perr := vh.Try(func() { rerr = runReport(in, c.Type, out, 0, c.Buckets) }); perr != nil {
+		every := time.Duration(0)
+		if c.Every && name == "report.split" && (c.Type == "json" || strings.HasPrefix(c.Type, "hist")) {
+			every = time.Millisecond
+		}
+		if perr := vh.Try(func() { rerr = runReport(in, c.Type, out, every, c.Buckets) }); perr != nil {
 			return "", fmt.Errorf("report -type=%s panics: %v", c.Type, perr)
 		}
 		if rerr != nil {
 			return "", fmt.Errorf("report -type=%s -buckets=%q: %v", c.Type, c.Buckets, rerr)
 		}
 		b, err := os.ReadFile(out)
+		if err == nil && every > 0 {
+			// keep the last of the periodic reports
+			if c.Type == "json" {
+				if last, _, e := lastJSONDoc(b); e == nil && last != nil {
+					b = last
+				}
+			} else if i := strings.LastIndex(string(b), "Bucket"); i >= 0 {
+				b = b[i:]
+			}
+		}
 		return string(b), err
 	}
 	splitArgs, err := withPipes()
@@ -407,12 +436,20 @@ func runC13Split(c c13Split) error {
 	}
 	// each input's own order is kept
 	next := make([]int, len(c.Files))
+	next2 := make([]int, len(c.Files)) // second cursor for an input that was named twice
 	for n, r := range rs {
 		var fi, idx int
-		if _, err := fmt.Sscanf(r.Attack, "f%d/%d", &fi, &idx); err != nil || fi >= len(c.Files) || idx != next[fi] {
-			return fmt.Errorf("%s: encode output record %d is %q, expected record %d of that file next", desc, n, r.Attack, next[min(fi, len(next)-1)])
+		if _, err := fmt.Sscanf(r.Attack, "f%d/%d", &fi, &idx); err != nil || fi >= len(c.Files) {
+			return fmt.Errorf("%s: encode output record %d is %q", desc, n, r.Attack)
 		}
-		next[fi]++
+		switch {
+		case idx == next[fi]:
+			next[fi]++
+		case fi == c.Dup && idx == next2[fi]:
+			next2[fi]++
+		default:
+			return fmt.Errorf("%s: encode output record %d is %q, expected record %d of that file next", desc, n, r.Attack, next[fi])
+		}
 	}
 	return nil
 }
@@ -451,8 +488,12 @@ func TestC13Commands(t *testing.T) {
 				c.Files[i].Codec = c.Files[0].Codec
 			}
 		}
+		c.Dup = -1
 		if rapid.IntRange(0, 3).Draw(t, "piped") == 0 {
 			c.Files[rapid.IntRange(0, nf-1).Draw(t, "pipedfile")].Pipe = true
+			c.Every = rapid.Bool().Draw(t, "every")
+		} else if rapid.IntRange(0, 3).Draw(t, "dup") == 0 {
+			c.Dup = rapid.IntRange(0, nf-1).Draw(t, "dupfile")
 		}
 		if nf >= 2 && rapid.IntRange(0, 3).Draw(t, "oddnames") == 0 {
 			// names that a shell pattern matcher would read as patterns matching their neighbours
